@@ -1,4 +1,4 @@
-SPECIFICATION Spec
+SPECIFICATION SafetySpec
 CONSTANTS
   QCap = 1
   NIn = 1
@@ -20,5 +20,5 @@ CONSTANTS
   NoWatcher = FALSE
   InitBeforeCheck = FALSE
 INVARIANTS TypeOK AtMostOneDisc RegisterOnce DiscSeesDisconnected NoCrash OwnClose ClosedForACause GoneAfterDisc WireOrdered AllWritten
-PROPERTIES CloseReturns EndedGenDisconnects NoLeak
+
 CHECK_DEADLOCK FALSE
